@@ -24,7 +24,8 @@ def allCells : List Zone → List Nat
 /-- `c` is the address of a cell of zone `z` -/
 def InZone (z : Zone) (c : Nat) : Prop := ∃ i, i < z.ncells ∧ c = z.base + i * z.elemsz
 
-/-- a well-formed zone = what the two `assert`s of `pool_engage` demand: a cell can hold the
+/-- a well-formed zone = the precondition of `pool_engage` (asserted by `igris::pool::init` and
+`pool_engage`): a cell can hold the
 8-byte link (`elemsz >= sizeof(struct slist_head)`) and the zone is whole cells (`size % elemsz == 0`) -/
 def Zone.WF (z : Zone) : Prop := 8 ≤ z.elemsz ∧ z.size % z.elemsz = 0
 
